@@ -16,7 +16,7 @@ import itertools
 from typing import Any, Dict, List
 
 from vf import pyvc, sstr
-from vf.core import Ob, scenario, simple_ob, sym_run
+from vf.core import Ob, scenario, simple_ob, sym_run, worst_per_name
 from vf.jasmrt import J, ensure
 from vf.pyvc import Name, SymSeq, Unsupported, ctx
 from vf.rt import Splice
@@ -95,7 +95,7 @@ def _macro(body, args=None, name="@m"):
     return m
 
 
-@scenario("macros:str-tree", ME + "._process_str_tree", ["C13", "C19"],
+@scenario("macros:str-tree", ME + "._process_str_tree", ["C13", "C19", "C17"],
           inlined=["_apply_macro_to_tree", "_apply_macro_to_tree_substring", "_resolve_local_macro", "_macro_has_args", "is_macro_name",
                    "_apply_macro_recursively (string case)"],
           doc="string positions: whole-string use, use inside a name, no use; effect on rule_macros")
@@ -113,8 +113,8 @@ def str_tree():
     }
     for cid, (mk, want, want_rm) in cases.items():
         for body_kind in ("str", "esc", "list"):
-            if body_kind == "list" and cid.startswith("inside"):
-                continue      # a list-pattern macro cannot be used inside a name (the expander raises)
+            must_raise = body_kind == "list" and cid.startswith("inside")
+            # a list-pattern macro cannot be used inside a name: the expander raises -- the reference is never kept as text
             BODY = "BODY" if body_kind != "esc" else "B\\dY\\b\\1"      # a body holding regex escapes is copied literally
 
             def fn():
@@ -132,6 +132,12 @@ def str_tree():
             c = runr.ctx
             for i, p in enumerate(runr.paths):
                 base = f"_apply_macro_recursively:str:{cid}:{body_kind}:p{i}"
+                if must_raise:
+                    obs.append(simple_ob(base + ":EXC-loud", func, "EXC",
+                                         f"[{cid}] a macro whose pattern is a subtree, referenced inside a text, cannot be expanded there: "
+                                         "the operation fails (the reference never survives as literal text)", p.kind == "exc", ["C19", "C17"],
+                                         detail=repr(p.value)[:160], witness=cid))
+                    continue
                 if p.kind != "ret":
                     obs.append(simple_ob(base + ":EXC", func, "EXC", "no exception", False, P13, detail=repr(p.value), witness=cid))
                     continue
@@ -341,7 +347,7 @@ def resolve_all():
                 collects = [x for x in lg if x[0] == "collect"]
                 obs.append(simple_ob(base + ":POST-final-scan", func, "POST",
                                      "the returned tree is the one that was scanned for remaining macro names (Names@(result) = {} on normal return)",
-                                     len(collects) == 1 and collects[0][1] is r, P19, detail=repr(collects), witness=str(len(collects))))
+                                     len(collects) == 1 and collects[0][1] is r, P19 + ["C17"], detail=repr(collects), witness=str(len(collects))))
     # names must start with '@'
     runr = sym_run(lambda: J.mexp.MacroExpander().resolve_all_macros(macros=[_macro("b", name="@ok"), _macro("b", name=Name("bad"))],
                                                                      pattern_tree={"$and": ["x"]}))
@@ -352,6 +358,7 @@ def resolve_all():
 
 
 class _CollectLoop:
+    covers = ("found",)      # the accumulator set of the entry call is the state this invariant speaks about
     def __init__(self, holder, obs):
         self.holder, self.obs = holder, obs
 
@@ -380,22 +387,37 @@ def collect():
     inner: List[Ob] = []
     holder: Dict[str, Any] = {}
 
-    def with_stub(tree_mk):
+    aux: Dict[str, Any] = {"a": None, "k": None}
+
+    def with_stub(tree_mk, generalise=False):
         def fn():
             cls = J.mexp.MacroExpander
             orig = cls._collect_macro_names
             depth = {"d": 0}
 
-            def wrapped(self_e, tree):
+            def gen(v):
+                # an auxiliary integer parameter of the recursion (a depth, a counter): the induction hypothesis is used for
+                # every value a recursive call can carry, so the step is proved for an arbitrary non-negative one
+                if isinstance(v, int) and not isinstance(v, bool):
+                    x = pyvc.sym_int("aux")
+                    pyvc.assume(x.t >= 0)
+                    return x
+                return v
+
+            def wrapped(self_e, tree, *a, **k):
                 if depth["d"] == 0:
                     depth["d"] += 1
                     try:
-                        return orig(self_e, tree)
+                        if generalise and (aux["a"] or aux["k"]):
+                            return orig(self_e, tree, *[gen(v) for v in aux["a"] or ()], **{n: gen(v) for n, v in (aux["k"] or {}).items()})
+                        return orig(self_e, tree, *a, **k)
                     finally:
                         depth["d"] -= 1
+                if a or k:
+                    aux["a"], aux["k"] = a, k
                 if isinstance(tree, Opaque):
                     return {("names", tree.ident)}
-                return orig(self_e, tree)          # leaves: strings are decided by the real code
+                return orig(self_e, tree, *a, **k)          # leaves: strings are decided by the real code
             cls._collect_macro_names = wrapped
             # expose the accumulator of the entry call to the loop contract
             real_set = set
@@ -424,9 +446,16 @@ def collect():
         "dict-value-macro": (lambda: {"main_reg": Name("mname", "at"), "k": Opaque("v")}, {"NAME", ("names", "v")}),
         "int": (lambda: 7, set()),
     }
-    for cid, (mk, want) in cases.items():
+    runs = [(cid, mk, want, False) for cid, (mk, want) in cases.items()]
+    k_ = 0
+    while k_ < len(runs):
+        cid, mk, want, general = runs[k_]
+        k_ += 1
+        if k_ == len(cases) and (aux["a"] or aux["k"]):
+            # the recursion carries auxiliary parameters: the same cases again, entered with ARBITRARY values of them
+            runs += [(cid2 + "@any-aux", mk2, want2, True) for cid2, (mk2, want2) in cases.items()]
         try:
-            runr = sym_run(with_stub(mk))
+            runr = sym_run(with_stub(mk, general))
         except Unsupported as e:
             obs.append(simple_ob(f"_collect_macro_names:{cid}:RUN", func, "RUN", "symbolic execution completes", None, P19, detail=f"unsupported: {e}"))
             continue
@@ -436,11 +465,7 @@ def collect():
             obs.append(simple_ob(f"_collect_macro_names:{cid}:p{i}:POST", func, "POST",
                                  f"[{cid}] result = the '@' strings among this node's own string / keys, united with Names@ of every child",
                                  p.kind == "ret" and norm == want, P19, detail=repr(got), witness=repr(norm)))
-    seen = set()
-    for o in inner:
-        if o.name not in seen:
-            seen.add(o.name)
-            obs.append(o)
+    obs.extend(worst_per_name(inner))
     return obs
 
 
